@@ -82,10 +82,16 @@ fn make_case(arg_lists: &[Vec<usize>], iface_oneway: bool, method_oneway_mask: u
                 if a.name.is_some() {
                     a.name = Some(format!("a{j}"));
                 }
+                // every third argument carries an annotation (between direction and type)
+                if (i + 2 * j) % 3 == 0 {
+                    a.annots.push(Annot::simple("@nullable"));
+                }
                 a
             })
             .collect();
-        let mut m = Method::new(Ty::void(), &format!("m{i}"), args);
+        // in the "constant before member" variants all methods of a file share one name
+        let mname = if const_at.is_some() && const_at != Some(0) { "same".to_string() } else { format!("m{i}") };
+        let mut m = Method::new(Ty::void(), &mname, args);
         m.oneway = (method_oneway_mask >> (i % 16)) & 1 == 1;
         item.members.push(Member::Method(m));
     }
@@ -234,7 +240,7 @@ pub fn run(tier: Tier, seed: u64) -> i32 {
     let all = classes.iter().all(|c| stats.outcome_count(&format!("class:{c}")) > 0);
     finish(
         &stats,
-        "every ordered pair of (type category, direction) cells over 20 category representatives (all categories the statement constrains, reached through real resolution with three supporting files) x interface oneway x method oneway patterns, plus every cell alone and (thorough) all ordered triples of cells; the Errors located on direction keywords / at argument type starts are compared with the statement's table; distinct_nontrivial counts distinct (argument list, oneway) combinations",
+        "every ordered pair of (type category, direction) cells over 20 category representatives (all categories the statement constrains, reached through real resolution with three supporting files; every third argument annotated; also with all methods of a file sharing one name) x interface oneway x method oneway patterns, plus every cell alone and (thorough) all ordered triples of cells; the Errors located on direction keywords / at argument type starts are compared with the statement's table; distinct_nontrivial counts distinct (argument list, oneway) combinations",
         &[
             "category table transcribed from the statement; `void` arguments are excluded (statement silent)",
             "Errors are located by range: the direction keyword, or the empty range at the type's first token",
